@@ -382,6 +382,10 @@ def gen_layer(rng, rows, cols, dtype, profile):
                 v = float(rng.randint(0, 3))
             elif profile == 'wide':
                 v = float(rng.randint(-6, 9))
+            elif profile == 'near':
+                # values a hair away from small integers (within any isclose-style tolerance, but not equal):
+                # exact comparisons against the integer reference layer must still tell them apart
+                v = float(rng.randint(0, 4)) + rng.choice([0.0, 0.0, 2.0 ** -20, -2.0 ** -20])   # representable in float32 too
             else:
                 v = rng.randint(-6, 12) / 2.0
             if dtype.startswith('float'):
@@ -413,7 +417,7 @@ def gen_case(rng, i, quick):
             cols = cols + 1
     names = [chr(ord('a') + k) for k in range(nl)]
     rng.shuffle(names)
-    profile = rng.choice(['ties', 'ties', 'wide', 'half'])
+    profile = rng.choice(['ties', 'ties', 'wide', 'half', 'near'])
     layout_mode = rng.random()
     layers = {}
     for n in names:
